@@ -112,6 +112,7 @@ class CommandShowTitles : public DFS::CommandInterface
       {
 	if (!show_title(storage, surface, error))
 	  {
+	    failed_to_mount_surface(std::cerr, surface, error);
 	    ok = false;
 	  }
       }
